@@ -106,9 +106,14 @@ CLAIMS = {
              "the rehydrated (stage-1) state completes at exactly the same fragment (rank argument through "
              "done_iff_span and stage1_done_iff). Checked on the real SlotManager/Updater by twin runs with reboots at "
              "(sampled) every position, comparing outcomes, counters, final check and final flash image.",
-        note="The theorems are about the L0 model; that try_recover_inner computes `rehydrate` of what the flash stores "
-             "hold is the L2 model's transcription, tied by the D5 correspondence (not by a theorem). "
-             "'Always recoverable until completed or cancelled' is the header-level statement of C13 (ring machine). "
+        note="C07b ties this to the flash-level model: recover_refines (for a Lawful session whose two headers are the "
+             "newest pair and with no other slot needing remediation, try_recover_inner returns — reading only — an updater "
+             "with the same slots, geometry, used mask, done mask = status bytes, l recomputed, whose abstraction is "
+             "Equiv to rehydrate of the abstraction before the reboot; same received counter; after completion: complete "
+             "and received = n), reboot_transparent_L2 / reboot_transparent_corner_L2 (after reboot + recovery every later "
+             "fragment gets the same outcome, hence completion at the same fragment, with equivalent final abstractions), "
+             "recover_hyps_after_start (non-vacuity from start_update on a blank device). The hypotheses NewestPair / "
+             "OthersSettled are the header-level facts proved for reachable ring states in C13 (recover_returns_latest). "
              "Defect fixed in /repo: counters after recovering a completed-but-unmarked session.",
         design_ref="DESIGN.md section 6 (C07)"),
     "C06": dict(
@@ -155,9 +160,10 @@ CLAIMS = {
              "expected erases and eight header words and needs no 0->1). The complete op log of every API call is "
              "compared between model and implementation over sessions, malformed inputs, arbitrary flash and ring "
              "histories; the oracle checks the same statements on the implementation.",
-        note="segment_no_zero_to_one_partial: for handle_segment the 'no 0->1 in crash-free runs' part is reduced to an "
-             "explicit write discipline hypothesis (needs C09's write-once contracts transported to the flash stores and "
-             "a frame invariant that unwritten regions stay erased); the NOR simulator counts 0->1 needs on every run. "
+        note="C08b discharges the crash-free 'no 0->1' clause from the session invariant Lawful of C01: "
+             "segment_no_zero_to_one (every program of handle_segment lands on erased or identical bytes — Discipline — "
+             "and reads back what was written), session_no_zero_to_one, needsSet_from_start (from start_update through "
+             "any session the device's 0->1 counter never moves); the NOR simulator counts 0->1 needs on every run. "
              "Model-level observations: write_segment's own bound check omits the buffer length and "
              "mark_segment_written compares with > instead of >= (both unreachable under the accepted geometry).",
         design_ref="DESIGN.md section 6 (C08)"),
